@@ -57,6 +57,8 @@ def show_expr(e):
         return "(" + _call_text(e) + ")"
     if k == "pipe":
         return "(%s | %s)" % (show_expr(e[1]), _call_text(e[2]))
+    if k == "wcall":        # aggregate / window function applied to an expression: `sum (a + 1)`, `lag 1 a` (only ever the root of an item)
+        return " ".join([e[1]] + [show_expr(a) for a in e[2]] + [show_expr(e[3])])
     raise ValueError(k)
 
 
@@ -171,6 +173,10 @@ def subterms(e, path=()):
             out += subterms(a, path + (3, i))
     elif k == "pipe":
         out += subterms(e[1], path + (1,)) + subterms(e[2], path + (2,))[1:]
+    elif k == "wcall":
+        for i, a in enumerate(e[2]):
+            out += subterms(a, path + (2, i))
+        out += subterms(e[3], path + (3,))
     return out
 
 
@@ -205,6 +211,8 @@ def map_expr(e, fn):
         e = (k, e[1], [(n, map_expr(a, fn)) for n, a in e[2]], [map_expr(a, fn) for a in e[3]])
     elif k == "pipe":
         e = (k, map_expr(e[1], fn), map_expr(e[2], fn))
+    elif k == "wcall":
+        e = (k, e[1], [map_expr(a, fn) for a in e[2]], map_expr(e[3], fn))
     return fn(e)
 
 
@@ -215,7 +223,7 @@ def subst_params(body, binding):
 
 def is_plain(e):
     """only prog.py's own node kinds (so that prog.coq_expr can print it)"""
-    return all(n[0] not in ("param", "call", "pipe") for _, n in subterms(e))
+    return all(n[0] not in ("param", "call", "pipe", "wcall") for _, n in subterms(e))
 
 
 def has_qualified(e):
@@ -225,7 +233,24 @@ def has_qualified(e):
 # ------------------------------------------------------------------------------ generator with frames
 
 class RGen(P.Gen):
-    """prog.Gen that records the frame (visible columns) before and after each step in step.info"""
+    """prog.Gen that records the frame (visible columns) before and after each step in step.info; filters are
+    more often conjunctions (with disjunctive / negated conjuncts), so that split and merge have many sites"""
+
+    def selective_filter(self, cols):
+        r = self.r
+        if r.random() < 0.3:
+            def conj():
+                k = r.random()
+                if k < 0.4:
+                    return ("bin", "Or", self.boolean(cols, 1), self.boolean(cols, 1))
+                if k < 0.5:
+                    return ("not", self.boolean(cols, 1))
+                return P.Gen.selective_filter(self, cols)
+            e = conj()
+            for _ in range(r.choice([1, 1, 2])):
+                e = ("bin", "And", e, conj()) if r.random() < 0.5 else ("bin", "And", conj(), e)
+            return e
+        return P.Gen.selective_filter(self, cols)
 
 
 def _wrap(kind):
@@ -257,6 +282,7 @@ class RStep:
         self.kind, self.raw, self.expr, self.items, self.keys, self.coq_text = kind, raw, expr, items, keys, coq
         self.info = info or {}
         self.before, self.after = before, after     # frames: [(qualifier|None, name)] or None (unknown)
+        self.wrap = None                            # (text before, text after) the `name = fn expr` items of an aggregate / window step
         self.call = call                            # ('call', path, named, pos) for a transform-function call step
         self.ref = ref                              # table reference (path) for append/join of a let-table
 
@@ -266,6 +292,8 @@ class RStep:
     def prql(self):
         if self.raw is not None:
             return self.raw
+        if self.wrap is not None:
+            return self.wrap[0] + ", ".join("%s = %s" % (n, show_expr(e)) for n, e in self.items) + self.wrap[1]
         if self.kind == "filter":
             return "filter " + show_expr(self.expr)
         if self.kind == "derive":
@@ -287,6 +315,8 @@ class RStep:
         try:
             if self.raw is not None or (self.coq_text is not None and self.info.get("orig_prql") == self.prql()):
                 return self.coq_text
+            if self.wrap is not None:
+                return None
             if self.kind == "filter" and is_plain(self.expr):
                 return "TFilter %s" % P.coq_expr(self.expr)
             if self.kind == "derive" and all(is_plain(e) for _, e in self.items):
@@ -303,6 +333,8 @@ class RStep:
         """expression slots: [(slot id, expr)]"""
         if self.raw is not None:
             return []
+        if self.wrap is not None:
+            return [(("w", i), e) for i, (n, e) in enumerate(self.items)]
         if self.kind == "filter":
             return [(("e",), self.expr)]
         if self.kind in ("derive", "select"):
@@ -316,6 +348,8 @@ class RStep:
     def set_slot(self, sid, e):
         if sid[0] == "e":
             self.expr = e
+        elif sid[0] == "w":
+            self.items[sid[1]] = (self.items[sid[1]][0], e)
         elif sid[0] == "i":
             n, old = self.items[sid[1]]
             if n is None and e[0] != "col":
@@ -423,6 +457,13 @@ class RProg:
         return out
 
 
+_FN_NAMES = sorted({v.split()[0] for v in list(P.WFNS.values()) + list(P.AGGS.values())}, key=len, reverse=True)
+_WITEM = re.compile(r"([A-Za-z_][A-Za-z0-9_]*) = (%s)((?: \d+)*) (.*)" % "|".join(_FN_NAMES))
+_WRAP_PATTERNS = [r"(derive \{)(.*)(\})", r"(window \S+ \(derive \{)(.*)(\}\))",
+                  r"(group \{[^{}]*\} \(sort \{[^{}]*\} \| derive \{)(.*)(\}\))",
+                  r"(aggregate \{)(.*)(\})", r"(group \{[^{}]*\} \(aggregate \{)(.*)(\}\))"]
+
+
 def from_program(pg):
     """prog.Program -> RProg (expression slots re-parsed; anything that does not round-trip stays raw)"""
     steps = []
@@ -457,6 +498,17 @@ def from_program(pg):
                     d = it.startswith("-")
                     keys.append((d, parse_expr(it[1:] if d else it)))
                 rs = RStep("sort", keys=keys)
+            elif st.kind in ("win", "group_win", "aggregate", "group_agg"):
+                for pat in _WRAP_PATTERNS:
+                    m = re.fullmatch(pat, st.prql)
+                    if m:
+                        items = []
+                        for it in split_top(m.group(2)):
+                            mm = _WITEM.fullmatch(it)
+                            items.append((mm.group(1), ("wcall", mm.group(2), [("lit", int(x)) for x in mm.group(3).split()], parse_expr(mm.group(4)))))
+                        rs = RStep(st.kind, items=items)
+                        rs.wrap = (m.group(1), m.group(3))
+                        break
         except (ParseError, AttributeError, ValueError):
             rs = None
         if rs is not None and rs.prql() != st.prql:
